@@ -179,6 +179,11 @@ def rand_rules(rng, site_paths=False):
         methods = rng.sample(METHODS + EXT_METHODS[:4], rng.choice([0, 0, 1, 2, 3]))
         rules.append(rule(p, origins, allow_all=rng.random() < (0.35 if site_paths else 0.2), mclear=mclear, methods=methods,
                           headers=rng.sample(HEADERS, rng.choice([0, 0, 1, 2])), ms=rng.choice(MS)))
+    if rng.random() < 0.12:      # a wildcard and the exact path equal to its literal part, the wildcard added first
+        w, e = rng.choice([(b"/api/*", b"/api/"), (b"/img/*", b"/img/"), (b"/api*", b"/api"), (b"/*", b"/")])
+        a = rng.sample(RULE_ORIGINS, 2)
+        rules.insert(rng.randrange(0, len(rules) + 1), rule(w, a[:1], allow_all=rng.random() < 0.3, ms=rng.choice(MS)))
+        rules.append(rule(e, a[1:], mclear=rng.random() < 0.3, methods=rng.sample(METHODS, 1), ms=rng.choice(MS)))
     return rules
 
 
@@ -233,7 +238,7 @@ def rand_origin(rng, host, rules):
         elif v == "fragment":
             o = o + rng.choice([b"#f", b"#", b"/#x"])
         else:
-            o = sch + b"://" + hostonly + (b":443" if sch.lower() == b"https" else b":80")
+            o = sch + b"://" + hostonly + rng.choice([b":443" if sch.lower() == b"https" else b":80", b":443", b":80"])
         return o, "near:" + v
     if k < 0.78:
         v = rng.choice([b"https://" + host, b"http://" + host + b":80", b"HTTP://" + host, b"http://" + host.upper(),
@@ -366,6 +371,28 @@ def corpus():
     return hs
 
 
+def tie_corpus():
+    """a wildcard and the exact path equal to its literal part (the exact rule is the most specific, whatever the add order);
+    ports: none / 80 / 443 are three different ports for every scheme"""
+    out = []
+    tie = [rule(b"/export*", [b"https://icelk.dev"], mclear=True, headers=[b"x-token"], ms=1000), rule(b"/export", [b"http://kvarn.org"], ms=2000),
+           rule(b"/data/", [], ms=3000), rule(b"/data/*", allow_all=True, ms=4000)]
+    hs = [(b"/export", 2), (b"/exports", 2), (b"/data/", 2), (b"/data/x", 2)]
+    ops = []
+    for o in (b"https://icelk.dev", b"http://kvarn.org", EVIL):
+        for p in (b"/export", b"/exports", b"/data/", b"/data/x"):
+            ops.append(req(b"GET", p, origin=o))
+        ops.append(req(b"OPTIONS", b"/export", origin=o, extra=PRE))
+    out.append((cfg(1, True, tie, hs), ops))
+    ports = [rule(b"/*", [b"http://intranet.example", b"http://admin.example:443", b"https://shop.example", b"https://pay.example:80", b"ftp://f.example:21"])]
+    ops = []
+    for h in (b"http://intranet.example", b"http://admin.example", b"https://shop.example", b"https://pay.example", b"ftp://f.example"):
+        for port in (b"", b":80", b":443", b":21", b":0", b":8080"):
+            ops.append(req(b"GET", b"/open", origin=h + port))
+    out.append((cfg(1, True, ports, [(b"/open", 0)]), ops))
+    return out
+
+
 def site_corpus():
     """the repaired defects and the audit's would-be-missed list, as (cfg, history) pairs"""
     out = []
@@ -470,6 +497,10 @@ def generate(rng, tier):
                 cases.append(conn_case(cfg(base, wc, CORPUS_RULES, CORPUS_HANDLERS), h, "corpus"))
     for c, h in site_corpus():
         cases.append(conn_case(c, h, "corpus-site"))
+    for c, h in tie_corpus():
+        cases.append(conn_case(c, h, "corpus"))
+        for i in range(0, len(h), 6):
+            cases.append(conn_case(c, h[i:i + 6], "corpus"))
     nhist, nsingle, ncheck, nsite = (170, 420, 400, 150) if tier == "quick" else (6000, 12000, 12000, 5000)
     for _ in range(nhist):
         rules = rand_rules(rng)
